@@ -474,6 +474,7 @@ impl VhostUserFrontend for Frontend {
         } else if body_reply.size != body.size
             || body_reply.size as usize != buf.len()
             || body_reply.offset != body.offset
+            || buf_reply.len() != buf.len()
         {
             return error_code(VhostUserError::InvalidMessage);
         }
@@ -853,15 +854,22 @@ impl FrontendInternal {
         }
         self.check_state()?;
 
-        let mut buf: Vec<u8> = vec![0; hdr.get_size() as usize - mem::size_of::<T>()];
-        let (reply, body, bytes, files) = self.main_sock.recv_payload_into_buf::<T>(&mut buf)?;
-        if !reply.is_reply_for(hdr)
-            || reply.get_size() as usize != mem::size_of::<T>() + bytes
-            || files.is_some()
-            || !body.is_valid()
-            || bytes != buf.len()
-        {
+        // Read the fixed part of the reply first: its header tells how many payload bytes follow
+        // (a backend signals failure with a payload-less reply), so never wait for more than that.
+        let (reply, body, files) = self.main_sock.recv_body::<T>()?;
+        if !reply.is_reply_for(hdr) || files.is_some() || !body.is_valid() {
             return Err(VhostUserError::InvalidMessage);
+        }
+        let expected = hdr.get_size() as usize - mem::size_of::<T>();
+        let payload_size = (reply.get_size() as usize)
+            .checked_sub(mem::size_of::<T>())
+            .ok_or(VhostUserError::InvalidMessage)?;
+        if payload_size > expected {
+            return Err(VhostUserError::InvalidMessage);
+        }
+        let (bytes, buf) = self.main_sock.recv_data(payload_size)?;
+        if bytes != payload_size {
+            return Err(VhostUserError::PartialMessage);
         }
 
         Ok((body, buf, files))
